@@ -197,10 +197,7 @@ pub fn execute(prop: &str, sc: &RaceScript, opts: &ExecOpts) -> Outcome {
             fold(&mut out, prop, &r);
             match &r.value {
                 None => out.violate(prop, "scenario-timeout", "registration-race", "the scenario did not finish within 900 virtual seconds".into()),
-                Some(Err(e)) => {
-                    out.inconclusive = true;
-                    out.log.push(format!("setup error: {e:#}"));
-                }
+                Some(Err(e)) => setup_failed(&mut out, prop, "registration-race", &sc.net, e),
                 Some(Ok(reports)) => {
                     let n = sc.roles.len();
                     let pubsub = |r: Role| r == Role::Pub || r == Role::Sub;
